@@ -453,6 +453,24 @@ def main(tier, seed):
                 base, _ = call_impl(fn, xf, yf)
                 if not agrees(base, r[1], r[2]):
                     continue              # reported by the float64 stream above, if it is a disagreement at all
+                # a caller-owned buffer as FIRST argument, evaluated, refilled in place with other values and evaluated again:
+                # the second value is the closed form of the buffer's current contents
+                try:
+                    buf = np.array([v + 1.5 for v in xf], dtype=np.float64)
+                    ya_ = np.array(yf, dtype=np.float64)
+                    fn(buf, ya_)
+                    buf[:] = xf
+                    gotb = float(fn(buf, ya_)); noteb = ""
+                except Exception as ex:  # noqa
+                    gotb, noteb = None, "%s: %s" % (type(ex).__name__, ex)
+                fstats["cases"] += 1; fstats["by_form"]["refilled_buffer"] = fstats["by_form"].get("refilled_buffer", 0) + 1
+                if not agrees(gotb, r[1], r[2]):
+                    fstats["disagreements"] += 1
+                    if fstats["disagreements"] <= 3:
+                        rep.violation("metric %r on a first-argument buffer refilled in place differs from its closed form: buffer held %r, now %r, y=%r expected=%r got=%r"
+                                      % (name, [v + 1.5 for v in xf], xf, yf, float(r[1]), gotb if gotb is not None else noteb),
+                                      dict(kind="metric_argument_form", name=name, form="refilled_buffer", first_contents=[v + 1.5 for v in xf], x=xf, y=yf,
+                                           expected=float(r[1]), got=gotb if gotb is not None else noteb), key="metric:%s" % name)
                 for form, mk in forms_for(name):
                     if form in ("strided", "readonly"):
                         xa, ya = mk([v + 0.5 for v in xf]), mk([v + 0.25 for v in yf])
